@@ -84,7 +84,7 @@ func (p *palette) val(s int) float64 { return p.vals[s-1] }
 func fmtF(x float64) string          { return strconv.FormatFloat(x, 'f', -1, 64) }
 
 var hardFloats = []float64{0.1 + 0.2, 5e-324, 1.7976931348623157e308, 2.2250738585072014e-308, 9007199254740993, 123456789.12345678,
-	0.3, 1e-7, 1e21, 0.1, 1.0 / 3.0, 2.5, 1e-5, 4.35, 0.7071067811865476, 100, 0, 1e22, 8.41e-320}
+	0.3, 1e-7, 1e21, 0.1, 1.0 / 3.0, 2.5, 1e-5, 4.35, 0.7071067811865476, 100, 0, 1e22, 8.41e-320, -2.5, -1e-3, -1e21}
 
 // projection of a real tree into D (pre-order, children in neighbour order), values as symbols
 func toD(t *tree.Tree, pal *palette, rename map[string]string) []dNode {
